@@ -878,6 +878,182 @@ fn mode_flat(_seed: u64, limit: usize) -> Vec<serde_json::Value> {
     fails
 }
 
+// ------------------------------------------------------------------ mode: proptest (C16): the real PropertyTest::run on hand-built UPLC fuzzers
+// Fuzzer protocol (aiken/fuzz): Fuzzer<a> = fn(Prng) -> Option<(Prng, a)> over Data;  Seeded = Constr 0 [seed, choices],
+// Replayed = Constr 1 [cursor, choices];  Some = Constr 0 [[prng, value]],  None = Constr 1 [].
+fn pt_list(items: Vec<Term<Name>>) -> Term<Name> {
+    let mut t = Term::mk_nil_data().apply(Term::unit());
+    for it in items.into_iter().rev() {
+        t = Term::mk_cons().apply(it).apply(t);
+    }
+    t
+}
+/// one byte from the generator: Seeded: byte = seed[0], next seed = blake2b_256(seed), the byte is prepended to the choices;
+/// Replayed: consume choices[cursor - 1], None when exhausted.  `crash_from`: the fuzzer itself fails on bytes >= that.
+fn pt_byte_fuzzer(crash_from: Option<u8>) -> Term<Name> {
+    let some = |prng: Term<Name>, value: Term<Name>| Term::constr_data().apply(Term::integer(0.into())).apply(pt_list(vec![Term::list_data().apply(pt_list(vec![prng, value]))]));
+    let guard = |byte_use: Term<Name>| match crash_from {
+        None => byte_use,
+        Some(c) => Term::less_than_integer().apply(Term::var("byte")).apply(Term::integer((c as i64).into())).delayed_if_then_else(byte_use, Term::Error),
+    };
+    let seeded = guard(some(
+        Term::constr_data().apply(Term::integer(0.into())).apply(pt_list(vec![
+            Term::b_data().apply(Term::blake2b_256().apply(Term::var("seed"))),
+            Term::b_data().apply(Term::cons_bytearray().apply(Term::var("byte")).apply(Term::var("choices"))),
+        ])),
+        Term::i_data().apply(Term::var("byte")),
+    ))
+    .lambda("byte")
+    .apply(Term::index_bytearray().apply(Term::var("seed")).apply(Term::integer(0.into())))
+    .lambda("choices")
+    .apply(Term::un_b_data().apply(Term::head_list().apply(Term::tail_list().apply(Term::var("fields")))))
+    .lambda("seed")
+    .apply(Term::un_b_data().apply(Term::head_list().apply(Term::var("fields"))));
+    let replayed = Term::less_than_equals_integer()
+        .apply(Term::integer(1.into()))
+        .apply(Term::var("cursor"))
+        .delayed_if_then_else(
+            guard(some(
+                Term::constr_data().apply(Term::integer(1.into())).apply(pt_list(vec![Term::i_data().apply(Term::var("c2")), Term::b_data().apply(Term::var("choices"))])),
+                Term::i_data().apply(Term::var("byte")),
+            ))
+            .lambda("byte")
+            .apply(Term::index_bytearray().apply(Term::var("choices")).apply(Term::var("c2")))
+            .lambda("c2")
+            .apply(Term::subtract_integer().apply(Term::var("cursor")).apply(Term::integer(1.into()))),
+            Term::constr_data().apply(Term::integer(1.into())).apply(pt_list(vec![])),
+        )
+        .lambda("choices")
+        .apply(Term::un_b_data().apply(Term::head_list().apply(Term::tail_list().apply(Term::var("fields")))))
+        .lambda("cursor")
+        .apply(Term::un_i_data().apply(Term::head_list().apply(Term::var("fields"))));
+    Term::equals_integer()
+        .apply(Term::var("tag"))
+        .apply(Term::integer(0.into()))
+        .delayed_if_then_else(seeded, replayed)
+        .lambda("fields")
+        .apply(Term::snd_pair().apply(Term::var("p")))
+        .lambda("tag")
+        .apply(Term::fst_pair().apply(Term::var("p")))
+        .lambda("p")
+        .apply(Term::unconstr_data().apply(Term::var("prng")))
+        .lambda("prng")
+}
+/// property: labels the sample "even"/"odd" (trace with a leading NUL), then holds iff byte < threshold
+fn pt_property(threshold: u8) -> Term<Name> {
+    let label = Term::equals_integer()
+        .apply(Term::mod_integer().apply(Term::var("b")).apply(Term::integer(2.into())))
+        .apply(Term::integer(0.into()))
+        .delayed_if_then_else(Term::string("\0even"), Term::string("\0odd"));
+    Term::Builtin(DefaultFunction::Trace)
+        .force()
+        .apply(label)
+        .apply(Term::less_than_integer().apply(Term::var("b")).apply(Term::integer((threshold as i64).into())))
+        .lambda("b")
+        .apply(Term::un_i_data().apply(Term::var("v")))
+        .lambda("v")
+}
+fn pt_program(t: Term<Name>) -> Program<Name> {
+    let mut p = Program { version: (1, 1, 0), term: t };
+    uplc::optimize::interner::CodeGenInterner::new().program(&mut p);
+    p
+}
+fn pt_bytes(seed: u32, n: usize) -> Vec<u8> {
+    use cryptoxide::{blake2b::Blake2b, digest::Digest};
+    let mut out = vec![];
+    let mut cur = [0u8; 32];
+    let mut h = Blake2b::new(32);
+    h.input(&seed.to_be_bytes());
+    h.result(&mut cur);
+    for _ in 0..n {
+        out.push(cur[0]);
+        let mut nx = [0u8; 32];
+        let mut h = Blake2b::new(32);
+        h.input(&cur);
+        h.result(&mut nx);
+        cur = nx;
+    }
+    out
+}
+fn mode_proptest(seed: u64, limit: usize) -> Vec<serde_json::Value> {
+    use aiken_lang::{ast::OnTestFailure, plutus_version::PlutusVersion, test_framework::{Fuzzer, PropertyTest}};
+    use pallas_primitives::alonzo::PlutusData;
+    let mut fails = vec![];
+    let mut rng = Rng(0xD1B54A32D192ED03 ^ seed.wrapping_mul(0x9E3779B97F4A7C15) | 1);
+    let mut n_cases = 0;
+    let int = aiken_lang::tipo::Type::int();
+    for round in 0..60u64 {
+        if fails.len() >= limit { break; }
+        let threshold = [1u8, 16, 64, 128, 200, 240, 250, 255][(round % 8) as usize];
+        let n = [1usize, 3, 10, 40][((round / 8) % 4) as usize];
+        let s = (rng.next() % 1000) as u32;
+        let crash_from = if round % 5 == 4 { Some([8u8, 100, 220][(round % 3) as usize]) } else { None };
+        for otf in [OnTestFailure::FailImmediately, OnTestFailure::SucceedEventually, OnTestFailure::SucceedImmediately] {
+            n_cases += 1;
+            let otf_name = format!("{otf:?}");
+            let input = serde_json::json!({"fuzzer": match crash_from { None => "byte".to_string(), Some(c) => format!("byte, crashing on >= {c}") }, "property": format!("byte < {threshold}"), "expectation": otf_name, "seed": s, "max_iterations": n});
+            let test = PropertyTest {
+                input_path: std::path::PathBuf::from("verif.ak"),
+                module: "verif".to_string(),
+                name: "prop".to_string(),
+                on_test_failure: otf.clone(),
+                program: pt_program(pt_property(threshold)),
+                fuzzer: Fuzzer { program: pt_program(pt_byte_fuzzer(crash_from)), type_info: int.clone(), stripped_type_info: int.clone() },
+            };
+            let run = |t: PropertyTest| std::panic::catch_unwind(std::panic::AssertUnwindSafe(move || t.run(s, n, &PlutusVersion::V3)));
+            let r = match run(test.clone()) {
+                Ok(r) => r,
+                Err(_) => { fails.push(fail("proptest", "PropertyTest::run panicked", input, "a result".into(), "panic".into())); continue }
+            };
+            // the specification, from the byte stream the seed determines
+            let bytes = pt_bytes(s, n);
+            let fails_prop = |b: u8| b >= threshold;
+            let kept = |b: u8| match otf { OnTestFailure::SucceedEventually => !fails_prop(b), _ => fails_prop(b) };
+            let mut want_iter = n;
+            let mut want_kind = "none";   // none | found | crash
+            let mut first = 0u8;
+            for (k, b) in bytes.iter().enumerate() {
+                if crash_from.map(|c| *b >= c).unwrap_or(false) { want_iter = k + 1; want_kind = "crash"; break; }
+                if kept(*b) { want_iter = k + 1; want_kind = "found"; first = *b; break; }
+            }
+            let mut want_labels = std::collections::BTreeMap::new();
+            let counted = if want_kind == "crash" { want_iter - 1 } else { want_iter };
+            for b in bytes.iter().take(counted) { *want_labels.entry(if b % 2 == 0 { "even".to_string() } else { "odd".to_string() }).or_insert(0usize) += 1; }
+            let got_kind = match &r.counterexample { Err(_) => "crash", Ok(Some(_)) => "found", Ok(None) => "none" };
+            let mut problems = vec![];
+            if got_kind != want_kind { problems.push(format!("outcome {got_kind}, expected {want_kind}")); }
+            if r.iterations != want_iter { problems.push(format!("iterations {} (samples drawn: {want_iter})", r.iterations)); }
+            if r.labels != want_labels { problems.push(format!("labels {:?}, expected {:?}", r.labels, want_labels)); }
+            if let Ok(Some(v)) = &r.counterexample {
+                match v {
+                    PlutusData::BigInt(_) => {
+                        let b = match uplc::machine::value::from_pallas_bigint(match v { PlutusData::BigInt(x) => x, _ => unreachable!() }).to_string().parse::<i64>() { Ok(x) => x, Err(_) => -1 };
+                        if !(0..=255).contains(&b) || !kept(b as u8) { problems.push(format!("reported counterexample {b} is not one under the {otf_name} expectation (re-applying the property does not confirm it)")); }
+                        if want_kind == "found" && b > first as i64 { problems.push(format!("reported counterexample {b} is larger than the first one found ({first})")); }
+                    }
+                    other => problems.push(format!("counterexample is not an integer: {other:?}")),
+                }
+            }
+            // verdict under the expectation
+            let tr: aiken_lang::test_framework::TestResult<(), PlutusData> = aiken_lang::test_framework::TestResult::PropertyTestResult(r);
+            let want_success = match (want_kind, &otf) { ("crash", _) => false, ("found", OnTestFailure::SucceedImmediately) => true, ("found", _) => false, (_, OnTestFailure::SucceedImmediately) => false, _ => true };
+            if tr.is_success() != want_success { problems.push(format!("verdict success={}, expected {want_success}", tr.is_success())); }
+            // reproducible: the same seed gives the same report
+            if let Ok(r2) = run(test) {
+                let tr2: aiken_lang::test_framework::TestResult<(), PlutusData> = aiken_lang::test_framework::TestResult::PropertyTestResult(r2);
+                if let (aiken_lang::test_framework::TestResult::PropertyTestResult(a), aiken_lang::test_framework::TestResult::PropertyTestResult(b)) = (&tr, &tr2) {
+                    if a.iterations != b.iterations || a.labels != b.labels || format!("{:?}", a.counterexample) != format!("{:?}", b.counterexample) { problems.push("a second run with the same seed reports something else".to_string()); }
+                }
+            }
+            if !problems.is_empty() {
+                fails.push(fail("proptest", "property test report differs from what the seed and the code determine", input, format!("{want_kind} after {want_iter} samples, labels {want_labels:?}"), problems.join("; ")));
+            }
+        }
+    }
+    println!("BOUNDS mode=proptest {n_cases} property tests: one-byte UPLC fuzzer (optionally crashing) x property `byte < T` (8 thresholds) x 3 expectations x max iterations 1,3,10,40 x random seeds: outcome, iteration count, labels, counterexample re-applied and not larger than the first found, verdict, reproducibility");
+    fails
+}
+
 // ------------------------------------------------------------------ mode: shrinker (C16): the real Counterexample::simplify on synthetic deterministic fuzzers
 fn shortlex_le(a: &[u8], b: &[u8]) -> bool {
     a.len() < b.len() || (a.len() == b.len() && a <= b)
@@ -1555,6 +1731,7 @@ fn main() {
             "named" => mode_named(seed, limit),
             "datacodec" => mode_datacodec(seed, limit),
             "shrinker" => mode_shrinker(seed, limit),
+            "proptest" => mode_proptest(seed, limit),
             "allbuiltins" => mode_allbuiltins(seed, limit),
             // the builtin grid, keeping only crashes (for the never-crash property a wrong value is not a violation)
             "builtins_np" => mode_builtins(seed, 1000).into_iter().filter(|f| f["what"].as_str().unwrap_or("").contains("panicked")).take(limit).collect(),
